@@ -129,7 +129,24 @@ def run(st, drv, root, batch):
     """batch: list of (label, world, main_items, files, flat_items or None)"""
     cases, metas = [], []
     for label, world, main_items, files, flat in batch:
-        main, disk, mf = build(main_items, files, world)
+        if isinstance(main_items, bytes):
+            # raw arrangement: exact bytes for the main text and for every file ({name: bytes})
+            main = main_items
+            for n in files:
+                main = main.replace(b'@' + n, world.written(n))
+            disk = {world.disk(n): c for n, c in files.items()}
+            modelfiles = {world.resolved(n): c for n, c in files.items()}
+            for n in list(files):
+                for k in list(disk):
+                    for m in files:
+                        disk[k] = disk[k].replace(b'@' + m, world.written(m))
+                for k in list(modelfiles):
+                    for m in files:
+                        modelfiles[k] = modelfiles[k].replace(b'@' + m, world.written(m))
+            mf = reftext.Files(modelfiles, dirs=[], resolver=(lambda name, w=world: name if name.startswith(w.root + b'/') else w.resolved(name)))
+            flat = [flat] if flat is not None else None
+        else:
+            main, disk, mf = build(main_items, files, world)
         m = reftext.meaning(I2, 0, main, files=mf)
         lines = world.setup() + ['mkfile %s %s' % (enc(n), enc(c)) for n, c in disk.items()]
         lines += ['init A I2 0'] + world.paths() + ['parse_buf A ' + enc(main), 'dump A 0', 'lexstate']
@@ -227,6 +244,46 @@ def shard_splits(sh):
             break
     if batch:
         run(st, drv, root, batch)
+    return st.result([drv])
+
+
+SPECIAL = [
+    # (label, main text with @name for file names, {name: exact content}, equivalent flat text)
+    ('include-inside-section', b'sec {\ninclude("@f1.conf")\n}\ni = 7', {b'f1.conf': b'x = 4\nl += {9}\n'}, b'sec {\nx = 4\nl += {9}\n}\ni = 7'),
+    ('include-inside-multi-section', b'm {\ninclude("@f1.conf")\n}\nm { include("@f1.conf") x = 5 }', {b'f1.conf': b'x = 3\n'}, b'm {\nx = 3\n}\nm { x = 3 x = 5 }'),
+    ('append-across-boundary', b'l += {2}\ninclude("@f1.conf")\nl += {4}', {b'f1.conf': b'l += {3}\n'}, b'l += {2}\nl += {3}\nl += {4}'),
+    ('assign-then-append-across', b'include("@f1.conf") l += {4}', {b'f1.conf': b'l = {}'}, b'l = {} l += {4}'),
+    ('no-trailing-newline', b'include("@f1.conf") l += {2}', {b'f1.conf': b'i = 7'}, b'i = 7 l += {2}'),
+    ('empty-file', b'i = 7 include("@f1.conf") l += {2}', {b'f1.conf': b''}, b'i = 7 l += {2}'),
+    ('only-a-comment', b'i = 7\ninclude("@f1.conf")\nl += {2}', {b'f1.conf': b'# nothing here'}, b'i = 7\nl += {2}'),
+    ('only-newlines', b'include("@f1.conf")\ni = x', {b'f1.conf': b'\n\n\n'}, None),
+    ('item-split-across-boundary', b'include("@f1.conf") 7 l += {2}', {b'f1.conf': b'i ='}, b'i = 7 l += {2}'),
+    ('list-split-across-boundary', b'include("@f1.conf") 3 }', {b'f1.conf': b'l = { 2 ,'}, b'l = { 2 , 3 }'),
+    ('same-file-twice', b'include("@f1.conf")\ninclude("@f1.conf")', {b'f1.conf': b'l += {3}\n'}, b'l += {3}\nl += {3}'),
+    ('two-files-in-a-row', b'include("@f1.conf") include("@f2.conf") i = 8', {b'f1.conf': b'i = 7', b'f2.conf': b's = "q r"'}, b'i = 7 s = "q r" i = 8'),
+    ('nested-in-section-in-file', b'include("@f1.conf")', {b'f1.conf': b'sec { include("@f2.conf") }\n', b'f2.conf': b'x = 4 l = {5}'}, b'sec { x = 4 l = {5} }'),
+    ('error-in-section-in-file', b'sec {\ninclude("@f1.conf")\n}', {b'f1.conf': b'x = 4\nx = bad\n'}, None),
+    ('error-after-include-in-section', b'sec {\ninclude("@f1.conf")\nx = bad }', {b'f1.conf': b'x = 4\n\n\n'}, None),
+    ('unterminated-string-in-file', b'include("@f1.conf")\ni = 8', {b'f1.conf': b's = "abc'}, None),
+    ('unterminated-comment-in-file', b'include("@f1.conf")\ni = 8', {b'f1.conf': b'i = 7 /* abc'}, None),
+    ('titled-instances-across-files', b'include("@f1.conf") include("@f2.conf")', {b'f1.conf': b'm { x = 1 }', b'f2.conf': b'm { x = 2 } m { }'}, b'm { x = 1 } m { x = 2 } m { }'),
+]
+
+
+def shard_special(sh):
+    placements, deadline = sh
+    drv = get_driver('asan')
+    drv.define_schema('I2', I2.spec())
+    root = engine.worker_root() + '-c13'
+    if drv.rootdir != root:
+        drv.set_root(root)
+    st = ShardStats('special arrangements')
+    batch = []
+    for pl in placements:
+        world = World(root, pl)
+        for label, main, files, flat in SPECIAL:
+            batch.append(('%s/%s' % (label, pl), world, main, files, flat))
+    run(st, drv, root, batch)
     return st.result([drv])
 
 
@@ -332,6 +389,8 @@ def main():
     T = texts(quick)
     engine.phase(ck, 'chains of depth 1..%d, failing targets' % (LIMIT + 2), shard_chains,
                  [(list(ch), list(range(1, LIMIT + 3)), PLACEMENTS, dl) for ch in engine.chunks(T[:30], 2)], texts=30, placements=len(PLACEMENTS))
+    engine.phase(ck, 'special arrangements (include inside sections, items split across the file boundary, odd file endings) x 5 placements',
+                 shard_special, [([pl], dl) for pl in PLACEMENTS], arrangements=len(SPECIAL))
     engine.phase(ck, 'fail^k then succeed, k = 0..12', shard_history, [([k], dl) for k in range(0, 13)], kinds=7)
     engine.phase(ck, 'split trees of depth <= 2 with error injection', shard_splits,
                  [(list(ch), 2, PLACEMENTS, True, dl) for ch in engine.chunks(T, 4)], texts=len(T), placements=len(PLACEMENTS))
